@@ -1,2 +1,4 @@
 import NjectProps.S7
 import NjectProps.C18
+import NjectProps.C06
+import NjectProps.C06b
